@@ -159,8 +159,8 @@ def native_check(quick=True):
             n += 1
             if f:
                 fails.append(({"kind": kind, "one reference-basis row": True, "neg_batch_size": negB}, f[:2]))
-    grid = [(5, 2, 2), (5, 2, 3), (4, 4, 4), (3, 5, 2), (6, 3, 1), (1, 1, 1)] if quick else \
-        [(N, B, NB) for N in range(1, 10) for B in range(1, 11) for NB in (1, 2, B, 7)]
+    grid = [(5, 2, 2), (5, 2, 3), (4, 4, 4), (3, 5, 2), (6, 3, 1), (1, 1, 1), (11, 5, 5), (11, 5, 2), (13, 6, 3), (23, 8, 8)] if quick else \
+        [(N, B, NB) for N in range(1, 10) for B in range(1, 11) for NB in (1, 2, B, 7)] + [(N, B, NB) for N in (11, 13, 23, 100) for B in (5, 6, 8, 32) for NB in (2, B)]
     for (N, B, NB) in grid:
         for wb in (False, True):
             f = check_shuffle(N, B, NB, wb)
